@@ -162,6 +162,10 @@ def run(tier='quick'):
                    detail={'items': len(codec.linearise(ge.items)[0])})
 
     _setters(prog, cg, ex, chk, P2)
+    P3 = chk.rule('P3', 'every element a 2.x decoder appends is built from a fresh object in that iteration, so that '
+                        're-encoding cannot write bytes of one slot into the next', floor=3)
+    from . import c03 as _c03
+    _c03.fresh_elements(prog, chk, P3, min_instances=3)
     return chk.finish('grammar extraction of the five 2.x codecs (encoder and decoder), field-type '
                       'resolution through the struct declarations, alias / member-assignment tracking '
                       'in the 2.x track setters')
